@@ -8,13 +8,15 @@ import OdxVerif.Model.Pdx
             `(text (cp …))`     → `(ok (cp …))` | `(err)`      -- character data as an XML processor reports it
             `(attr (cp …))`     → `(ok (cp …))` | `(err)`      -- double-quoted attribute value, normalised
             `(load (f frag kind old ver (id obj)…) …)`  kind = dlc|subset|spec, old = t|f, ver = n
-                                → `(ok (dlcs frag…) (subsets frag…) (specs frag…) (version n) (links (frag id obj)…))` | `(err)`
-                                                                 -- Database._process_xml_tree per file + _build_odxlinks
+                                → `(ok (dlcs frag…) (subsets frag…) (specs frag…) (version n) (links (frag DOCTYPE id obj)…))` | `(err)`
+                                                                 -- Database._process_xml_tree per file + _build_odxlinks; DOCTYPE =
+                                                                 -- CONTAINER | COMPARAM-SUBSET | COMPARAM-SPEC (`DocType.value`)
             `(dispatch pdx|files|dir suffix name)` → `odx` | `index` | `aux` | `pdx`   -- file-type dispatch of the entry points
             `(effective fuel (files (f …)…) (raw (o obj KIND (cps (tag id proto|-)…) (locals (name tag)…) (parents ((frag id) excl…)…))…)
                         (keys (frag id)…))`
                                 → `(ok (l frag id (cps tag…)|(cps none) (objs ok (name tag)…)|(objs err)|(objs none))…)` | `(err)`
                                                                  -- per layer: comparam_refs and the objects of one category after refresh()
+            in `effective`, `(frag id)` denotes an id in a CONTAINER document (layers, PARENT-REFs); `(frag DOCTYPE id)` any
   anything else → `(bad-request)` -/
 open OdxVerif OdxVerif.Pdx
 
@@ -39,13 +41,25 @@ def parseFile : Sexp → Option File
     pure ⟨frag, k, old == "t", v, ids⟩
   | _ => none
 
+def OdxVerif.Pdx.DocType.toStr : DocType → String
+  | .container => "CONTAINER" | .comparamSubset => "COMPARAM-SUBSET" | .comparamSpec => "COMPARAM-SPEC"
+
+def parseDocType (s : String) : Option DocType :=
+  if s == "CONTAINER" then some .container else if s == "COMPARAM-SUBSET" then some .comparamSubset
+  else if s == "COMPARAM-SPEC" then some .comparamSpec else none
+
+def parseKey : Sexp → Option Key
+  | .list [.atom fr, .atom i] => some ((fr, .container), i)
+  | .list [.atom fr, .atom dt, .atom i] => do pure ((fr, ← parseDocType dt), i)
+  | _ => none
+
 def fragsStr (tag : String) (fs : List File) : String := "(" ++ " ".intercalate (tag :: fs.map (·.frag)) ++ ")"
 
 /-- the effective ODXLINK map: every key with the object the last update left there, in first-insertion order -/
 def linksStr (db : Db) : String :=
   let keys := (links db).map (·.1) |>.eraseDups
   "(" ++ " ".intercalate ("links" :: keys.map fun k =>
-    s!"({k.1} {k.2} {(linkLookup db k).getD 0})") ++ ")"
+    s!"({k.1.1} {k.1.2.toStr} {k.2} {(linkLookup db k).getD 0})") ++ ")"
 
 def handleLoad (fs : List Sexp) : String :=
   match fs.mapM parseFile with
@@ -69,19 +83,19 @@ def parseRaw : Sexp → Option (Nat × RawLayer)
       | .list [a, b] => do pure (⟨← a.asNat?, ← b.asNat?⟩ : Inherit.Obj)
       | _ => none
     let ps ← ps.mapM fun
-      | .list (.list [.atom fr, .atom i] :: ex) => do pure ((fr, i), ← ex.mapM Sexp.asNat?)
+      | .list (k :: ex) => do pure (← parseKey k, ← ex.mapM Sexp.asNat?)
       | _ => none
     pure (o, ⟨k, cps, ls, ps⟩)
   | _ => none
 
 def handleEffective (fuel : Nat) (fs raws keys : List Sexp) : String :=
-  match fs.mapM parseFile, raws.mapM parseRaw, keys.mapM (fun | .list [.atom fr, .atom i] => some (fr, i) | _ => none) with
+  match fs.mapM parseFile, raws.mapM parseRaw, keys.mapM parseKey with
   | some files, some raws, some keys =>
     match processAll files with
     | .error _ => "(err)"
     | .ok db =>
       let raw : Nat → Option RawLayer := fun o => raws.lookup o
-      let one (k : String × String) : String :=
+      let one (k : Key) : String :=
         let cps := match effectiveComparams db raw fuel k with
           | some l => "(" ++ " ".intercalate ("cps" :: l.map fun (c : Comparam.Inst) => toString c.tag) ++ ")"
           | none => "(cps none)"
@@ -89,7 +103,7 @@ def handleEffective (fuel : Nat) (fs raws keys : List Sexp) : String :=
           | some (.ok l) => "(" ++ " ".intercalate ("objs" :: "ok" :: l.map fun (o : Inherit.Obj) => s!"({o.name} {o.tag})") ++ ")"
           | some (.error _) => "(objs err)"
           | none => "(objs none)"
-        s!"(l {k.1} {k.2} {cps} {objs})"
+        s!"(l {k.1.1} {k.2} {cps} {objs})"
       "(" ++ " ".intercalate ("ok" :: keys.map one) ++ ")"
   | _, _, _ => "(bad-request)"
 
